@@ -3,6 +3,9 @@
 
 mod globals;
 
+#[cfg(capy_verif)]
+mod verif_trace;
+
 #[cfg(test)]
 mod tests;
 
@@ -604,6 +607,11 @@ impl<'a, F: EvalComptimeFn> InferenceCtx<'a, F> {
                     // }),
         );
 
+        #[cfg(capy_verif)]
+        let mut verif_trace = verif_trace::SchedTrace::from_env();
+        #[cfg(capy_verif)]
+        verif_trace.start(&self.to_infer, self.interner);
+
         if self.to_infer.is_empty() {
             return InferenceResult {
                 tys: self.tys,
@@ -613,6 +621,9 @@ impl<'a, F: EvalComptimeFn> InferenceCtx<'a, F> {
         }
 
         loop {
+            #[cfg(capy_verif)]
+            verif_trace.round(&self.to_infer, self.interner);
+
             let leaves = match self.to_infer.peek_all() {
                 Ok(leaves) => leaves.into_iter().cloned().collect_vec(),
                 Err(_) => {
@@ -665,6 +676,9 @@ impl<'a, F: EvalComptimeFn> InferenceCtx<'a, F> {
 
             assert!(!leaves.is_empty());
 
+            #[cfg(capy_verif)]
+            verif_trace.offered(&leaves, self.interner);
+
             // println!("inferring leaves: {leaves:#?}");
 
             for inferrable in leaves {
@@ -681,10 +695,21 @@ impl<'a, F: EvalComptimeFn> InferenceCtx<'a, F> {
                             inferrable.debug(self.interner)
                         );
                         self.to_infer.remove(&inferrable);
+                        #[cfg(capy_verif)]
+                        verif_trace.task_done(inferrable, &self.to_infer, self.interner);
                     }
                     Err(deps) => {
                         // println!(" - requires deps");
+                        #[cfg(capy_verif)]
+                        let verif_deps = deps.clone();
                         self.to_infer.insert_deps(inferrable, deps);
+                        #[cfg(capy_verif)]
+                        verif_trace.task_deps(
+                            inferrable,
+                            &verif_deps,
+                            &self.to_infer,
+                            self.interner,
+                        );
                     }
                 }
             }
@@ -700,6 +725,8 @@ impl<'a, F: EvalComptimeFn> InferenceCtx<'a, F> {
             // println!();
 
             if self.to_infer.is_empty() {
+                #[cfg(capy_verif)]
+                verif_trace.end();
                 break;
             }
         }
